@@ -241,10 +241,14 @@ func init() {
 			r.Require("distinct_deviation_kinds", int64(len(c06Deviations)))
 			r.Require("accepted_independently_evaluated", 50)
 			r.Require("multi_host_mismatches_refused", 200)
+			r.Require("multi_host_concurrent_mismatches_refused", 300)
 			return []core.Workload{
 				{Name: "deviations", N: c.Pick(2000, 24000), Fn: c06Case},
 				{Name: "multi_host_sequences", N: c.Pick(150, 1500), Fn: func(r *core.Run, idx int, rng *rand.Rand) {
 					multiHostSequence(r, "multi_host_sequences", idx, rng, true)
+				}},
+				{Name: "multi_host_concurrent", N: c.Pick(40, 400), Fn: func(r *core.Run, idx int, rng *rand.Rand) {
+					multiHostConcurrent(r, "multi_host_concurrent", idx, rng, true)
 				}},
 			}
 		},
